@@ -9,6 +9,7 @@ import (
 	"flag"
 	"fmt"
 	"io"
+	"math/rand"
 	"os"
 	"os/exec"
 	"path/filepath"
@@ -335,6 +336,50 @@ func cmdRoundTrip(args []string) {
 	rep.Emit()
 }
 
+// cmdRecord: direction B. Random histories executed on real roots, recorded for LoaderTrace.tla.
+func cmdRecord(args []string) {
+	fs := flag.NewFlagSet("record", flag.ExitOnError)
+	n := fs.Int("n", 100, "number of histories")
+	outp := fs.String("out", "", "ndjson output")
+	_ = fs.Parse(args)
+	rng := rand.New(rand.NewSource(vh.Seed()))
+	g := &sch.Gen{R: rng}
+	rep := vh.NewReport("schema", "record")
+	out, err := os.Create(*outp)
+	if err != nil {
+		vh.Die("%s", err)
+	}
+	defer out.Close()
+	enc := json.NewEncoder(out)
+	for h := 0; h < *n; h++ {
+		docs := g.History()
+		root := ggql.NewRoot(nil)
+		_ = enc.Encode(map[string]interface{}{"r": "reset"})
+		key := ""
+		failed := false
+		for _, d := range docs {
+			err := load(root, d)
+			if err != nil {
+				failed = true
+			}
+			if eerr := enc.Encode(map[string]interface{}{"r": "load", "doc": d, "ok": err == nil, "canon": sch.ReadBack(root)}); eerr != nil {
+				vh.Die("cannot encode a record: %s", eerr)
+			}
+			key += "|" + docKey(d)
+		}
+		rep.Case(key, failed || len(docs) > 1)
+		if h < 2 {
+			var texts []string
+			for _, d := range docs {
+				t, _ := sch.DocText(d)
+				texts = append(texts, t)
+			}
+			rep.Sample(texts)
+		}
+	}
+	rep.Emit()
+}
+
 var rootKinds = []string{"reflection", "resolver", "any"}
 
 type appRoot struct{}
@@ -403,6 +448,13 @@ func main() {
 		cmdLoadHist(os.Args[2:])
 	case "roundtrip":
 		cmdRoundTrip(os.Args[2:])
+	case "record":
+		cmdRecord(os.Args[2:])
+	case "text":
+		var defs []sch.Def
+		vh.ReadJSON(os.Args[2], &defs)
+		t, f := sch.DocText(defs)
+		fmt.Printf("%s[fault at %d]\n", t, f)
 	default:
 		vh.Die("unknown mode %s", os.Args[1])
 	}
